@@ -231,8 +231,12 @@ class Receiver:
                     TaskiqState: self.broker.state,
                 },
             )
+            # The resolver gets its own copy of the context. The broker's dict
+            # is shared by all executions and the resolver reads it again later
+            # (e.g. for dependencies with use_cache=False), when it may already
+            # hold the Context of another message that is executed concurrently.
             dep_ctx = dependency_graph.async_ctx(
-                broker_ctx,
+                broker_ctx.copy(),
                 self.broker.dependency_overrides or None,
             )
             # Resolve all function's dependencies.
